@@ -201,10 +201,16 @@ class Select(WireContract):
         from pyvc.engine import SObj, Unsupported
         a = list(args) + [kwargs.get('truecase'), kwargs.get('falsecase')][len(args) - 1:] if len(args) < 3 else list(args)
         s, t, f = a[0], a[1], a[2]
-        if not all(isinstance(x, SObj) for x in (s, t, f)):
-            raise Unsupported('select with non-wire operands')
-        return NS(args=[s, t, f], vs=W.den_of(s), ws=W.bw_of(s), vt=W.den_of(t), wt=W.bw_of(t),
-                  vf=W.den_of(f), wf=W.bw_of(f))
+
+        def view(x):
+            # as_wires: an int operand becomes a Const of minimal width
+            if isinstance(x, SObj):
+                return W.den_of(x), W.bw_of(x)
+            if isinstance(x, int) and not isinstance(x, bool) and x >= 0:
+                return x, max(x.bit_length(), 1)
+            raise Unsupported('select operand %r' % (x,))
+        (vs, ws), (vt, wt), (vf, wf) = view(s), view(t), view(f)
+        return NS(args=[s, t, f], vs=vs, ws=ws, vt=vt, wt=wt, vf=vf, wf=wf)
 
     def pre(self, ns):
         return [('select is one bit', ns.ws == 1)]
